@@ -13,7 +13,11 @@ mode "decompile" (default)
          "C <class>"                       DvClass.get_source() of the whole class
          "R <class>"                       DvClass.get_source() after a second DvClass.process() on the
                                             same object (order "C2")
-  orders: M methods alone in file order · Mrev methods alone, reverse order · C whole classes ·
+         "A <class> <method><descriptor>"  JSON AST of one method (fresh DvMethod, process(doAST=True))
+         "X <class>"                       JSON AST of one class (fresh DvClass, process(doAST=True))
+  orders: any string over M C A X = phases run one after the other over all requested classes
+          (e.g. "AM": every method in AST mode first, then every method as source; "MX", "XC", "AXC", ...);
+          M methods alone in file order · Mrev methods alone, reverse order · C whole classes ·
           MC methods alone then classes · CM classes then methods alone · C2 classes, processed twice
   lazy: build MethodAnalysis objects only for the requested classes (same objects Analysis.add would
         build; saves the analysis of the other 99% of a big APK)
@@ -155,19 +159,49 @@ def decompile_mode(spec, out):
             except Exception as e:  # noqa
                 put("C " + cname, "EXC:" + type(e).__name__)
 
+    def ast_text(a):
+        """canonical JSON text of an AST (never the repr of an object: that would carry addresses)"""
+        return json.dumps(a, sort_keys=True, default=lambda o: "<%s>" % type(o).__name__)
+
+    def do_ast_methods(order, rev=False):
+        # what DecompilerDAD.get_ast_method does: a fresh DvMethod processed in AST mode
+        for cname in order:
+            meths = list(byname[cname].get_methods())
+            for m in (meths[::-1] if rev else meths):
+                key = mkey("A", cname, m)
+                try:
+                    z = decompile.DvMethod(dx.get_method(m))
+                    z.process(doAST=True)
+                    put(key, ast_text(z.get_ast()))
+                except Exception as e:  # noqa
+                    put(key, "EXC:" + type(e).__name__)
+
+    def do_ast_classes(order):
+        # what DecompilerDAD.get_ast_class does: a fresh DvClass processed in AST mode
+        for cname in order:
+            try:
+                c = decompile.DvClass(byname[cname], dx)
+                c.process(doAST=True)
+                put("X " + cname, ast_text(c.get_ast()))
+            except Exception as e:  # noqa
+                put("X " + cname, "EXC:" + type(e).__name__)
+
     o = spec["order"]
-    if o == "M":
-        do_methods(names)
-    elif o == "Mrev":
+    if o == "Mrev":
         do_methods(names[::-1], rev=True)
-    elif o == "C":
-        do_classes(names)
-    elif o == "MC":
-        do_methods(names); do_classes(names)
-    elif o == "CM":
-        do_classes(names); do_methods(names)
     elif o == "C2":
         do_classes(names, twice=True)
+    elif o and all(ch in "MCAXax" for ch in o):
+        # phases, each over all requested classes: M methods alone (source), C whole classes (source),
+        # A methods alone in AST mode, X whole classes in AST mode; every request uses a fresh DvMethod/DvClass
+        # a / x: the AST phases in reverse order (another method / class is the first one to be processed)
+        for ch in o:
+            if ch == "a":
+                do_ast_methods(names[::-1], rev=True)
+            elif ch == "x":
+                do_ast_classes(names[::-1])
+            else:
+                {"M": do_methods, "C": do_classes, "A": do_ast_methods, "X": do_ast_classes}[ch](names)
     else:
         raise ValueError(o)
 
